@@ -1480,6 +1480,17 @@ def enumerate_paths(body, max_paths=20000, choose=None, stop_at_loops=True, star
             allowed = None
             if choose is not None:
                 allowed = choose(bb, dt, names, t)
+            if names is not None and dt[0] == "discr" and body.raw.get("inlined") and contains(dt[1], lambda q: q[0] == "phi" and any((a_[0] == "agg" and a_[1] in ("std::result::Result", "std::option::Option")) or (a_[0] == "call" and a_[1].endswith("::from_residual")) for a_ in q[1])):
+                # the result of an inlined copy: on this path it is one of its literal outcomes — prune while walking
+                edges_ = set(zip(blocks, blocks[1:]))
+                try:
+                    pt_ = Terms(body, edge_ok=lambda a_, b_, edges_=edges_: (a_, b_) in edges_).operand(d, bb)
+                    kv_ = _known_variant(pt_[1]) if pt_[0] == "discr" else None
+                except Exception:
+                    kv_ = None
+                if kv_ is not None and kv_ in names.values():
+                    keep_ = switch_target(t, names, kv_)
+                    allowed = {keep_} if allowed is None else (set(allowed) & {keep_})
             for v, tgt in succs:
                 if allowed is not None and tgt not in allowed:
                     continue
@@ -3344,6 +3355,13 @@ def iteration_table(body, head, max_paths=5000, stop_at_exit=False):
             if body.raw.get("inlined") and known_[0] != "const":
                 # `(helper(..)? )` where the inlined copy ended in a literal Ok(true): the payload is that literal
                 known_ = unmut(nosite(deep_strip(dt)))
+            nneg_ = False
+            while known_[0] == "un" and known_[1] == "Not":
+                known_, nneg_ = known_[2], not nneg_
+            if nneg_ and known_[0] == "const" and isinstance(known_[2], bool):
+                known_ = ("const", "bool", not known_[2])
+            elif nneg_:
+                known_ = ("un", "Not", known_)
             if known_[0] == "const" and isinstance(known_[2], (bool, int)) and names is None:
                 # the discriminant is a constant on this path (e.g. a bool local assigned earlier on it): only that branch is feasible
                 kv = int(known_[2])
@@ -3353,6 +3371,27 @@ def iteration_table(body, head, max_paths=5000, stop_at_exit=False):
                     if body.blocks[tgt]["term"]["k"] != "unreachable":
                         nexts.append((tgt, conds))
                 succs_ = []
+            if names is None and succs_:
+                # the same (immutable) condition decided earlier on this path decides it again the same way
+                def norm_c(x):
+                    x = nosite(x)
+                    neg = False
+                    while x[0] == "un" and x[1] == "Not":
+                        x, neg = x[2], not neg
+                    return x, neg
+                cur, cneg = norm_c(dt)
+                if cur[0] not in ("const", "phi", "carried") and not contains(cur, lambda q: q[0] in ("mut", "carried", "loop")):
+                    for pdt, plab, _pbb in conds:
+                        if isinstance(plab, tuple) or pdt[0] == "discr":
+                            continue
+                        pc, pneg = norm_c(pdt)
+                        if pc == cur:
+                            truth = (cond_truth(plab) != pneg) != cneg
+                            f_, tr_ = bool_targets(t)
+                            keep = tr_ if truth else f_
+                            if keep is not None:
+                                succs_ = [(v, tgt) for v, tgt in succs_ if tgt == keep][:1]
+                            break
             kvar = None
             if names is not None and dt[0] == "discr" and body.raw.get("inlined"):
                 # `x?` where x is, on this path, the Ok(..)/error that an inlined copy just produced: one feasible arm
